@@ -127,6 +127,57 @@ impl Stage for C20 {
     }
 }
 
+/// Many rows holding containers whose contents change in place when elements are unioned, followed by
+/// print-function / extraction: row order after a rebuild is observable output.
+pub struct ContainerRows;
+
+impl Stage for ContainerRows {
+    type Input = Prog;
+    fn name(&self) -> &'static str {
+        "container-rows"
+    }
+    fn decode(&self, src: &mut Src) -> Prog {
+        use crate::prog::*;
+        let mut sig = Sig::default();
+        sig.sorts.push("S".into());
+        let kind = *src.pick(&[ContKind::Vec, ContKind::Set, ContKind::MultiSet]);
+        sig.conts.push(ContDecl { name: "K0".into(), kind, elem: Ty::Eq(0) });
+        let ctor = |name: &str, args: Vec<Ty>| FuncDecl { name: name.into(), kind: FKind::Ctor { cost: None, unextractable: false }, args, out: Ty::Eq(0) };
+        sig.funcs.push(ctor("Num", vec![Ty::I64]));
+        sig.funcs.push(ctor("Holds", vec![Ty::Cont(0)]));
+        sig.funcs.push(FuncDecl { name: "Seen".into(), kind: FKind::Rel, args: vec![Ty::Cont(0), Ty::I64], out: Ty::I64 });
+        let lit = crate::pgen::cont_ctor(kind).to_string();
+        let num = |i: i64| Term::App(0, vec![Term::I(i)]);
+        let n = 8 + src.below(56) as i64;
+        let hot = src.range(0, 3);
+        let mut cmds = vec![];
+        for i in 0..n {
+            // every container mentions the "hot" element, so one union rewrites all of them in place
+            let es = if src.bool() { vec![num(hot), num(10 + i)] } else { vec![num(10 + i), num(hot)] };
+            let c = Term::Prim(lit.clone(), es);
+            cmds.push(Cmd::Act(Action::Expr(Term::App(1, vec![c.clone()]))));
+            if src.chance(1, 3) {
+                cmds.push(Cmd::Act(Action::Expr(Term::App(2, vec![c, Term::I(i % 3)]))));
+            }
+        }
+        cmds.push(Cmd::Act(Action::Union(num(hot), num(1000 + src.range(0, 3)))));
+        if src.bool() {
+            cmds.push(Cmd::Act(Action::Union(num(10), num(11))));
+        }
+        cmds.push(Cmd::PrintFunction(1, 500));
+        cmds.push(Cmd::PrintFunction(2, 500));
+        cmds.push(Cmd::Extract(Term::App(1, vec![Term::Prim(lit.clone(), vec![num(hot), num(10)])]), Some(3)));
+        cmds.push(Cmd::PrintSize(None));
+        Prog { sig, cmds }
+    }
+    fn render(&self, inp: &Prog) -> serde_json::Value {
+        serde_json::json!(inp.text().lines().collect::<Vec<_>>())
+    }
+    fn check(&self, prog: &Prog) -> Outcome {
+        C20.check(prog)
+    }
+}
+
 pub fn corpus_stage() -> CorpusDiff {
     CorpusDiff {
         a: run_cfg(),
@@ -145,6 +196,7 @@ pub fn corpus_stage() -> CorpusDiff {
 pub fn replay(rep: &Report, stage: &str, j: &serde_json::Value) -> i32 {
     match stage {
         "corpus" => crate::registry::replay_stage(rep, &corpus_stage(), j),
+        "container-rows" => crate::registry::replay_stage(rep, &ContainerRows, j),
         _ => crate::registry::replay_stage(rep, &C20, j),
     }
 }
@@ -158,5 +210,7 @@ pub fn run(rep: &Report) {
     rep.assume("timings (Durations) and print-stats text are excluded, as the property states");
     rep.run_regressions(&C20);
     rep.explore(&C20, rep.tier.pick(700, 12_000), 700);
+    rep.run_regressions(&ContainerRows);
+    rep.explore(&ContainerRows, rep.tier.pick(120, 3000), 200);
     run_corpus(rep, &corpus_stage());
 }
